@@ -27,6 +27,12 @@ def main(argv):
             if hasattr(mod, 'selftest'):
                 mod.selftest()
                 n += 1
+        import subprocess
+        r = subprocess.run([sys.executable, os.path.join(core.VERIF, 'tools', 'lint_globals.py')], capture_output=True, text=True)
+        if r.returncode != 0:
+            print(r.stdout + r.stderr)
+            print("selftest FAILED: undefined names in the harness")
+            return 2
         print(f"selftest ok: bitstring from {core.REPO}, {len(check_modules())} checks, {n} model self-tests, "
               f"{len(core.find_caches())} caches found")
         return 0
